@@ -311,6 +311,16 @@ func c16OS(u *vfUnit, part, parts int) {
 				}
 				u.Max("readdir_round_trips", int64(trips))
 			}
+			if ok && i%3 == 0 {
+				// the same directory addressed through a symbolic link
+				link := dir + ".link"
+				os.Symlink(filepath.Base(dir), link)
+				if got2, _, ok2 := c16List(u, sess, link, label+"/via-symlink"); ok2 {
+					c16Compare(u, label+"/via-symlink", got2, want)
+				}
+				u.Count("listings", 1)
+				os.Remove(link)
+			}
 			os.RemoveAll(dir)
 		}
 		if msg := sess.Close(); msg != "" {
@@ -329,11 +339,25 @@ func c16RS(u *vfUnit, part, parts int) {
 	caseNo := 0
 	for _, batch := range batches {
 		MaxFilelist = int64(batch)
+		var ns []int
 		for n := 0; n <= 2*batch+3; n++ {
+			ns = append(ns, n)
+		}
+		if batch == 1 {
+			// a listing of more than a thousand batches (any number of entries, however small the batches)
+			ns = append(ns, 1100)
+		}
+		for _, n := range ns {
 			for behaviour := 0; behaviour < 4; behaviour++ {
 				for _, dots := range []bool{false, true} {
+					if n > 100 && (behaviour != 0 || dots) {
+						continue
+					}
 					caseNo++
-					if caseNo%parts != part {
+					if caseNo%parts != part && n <= 100 {
+						continue
+					}
+					if n > 100 && part != 0 {
 						continue
 					}
 					style := caseNo % 3
@@ -345,8 +369,19 @@ func c16RS(u *vfUnit, part, parts int) {
 					}
 					for j, nm := range names {
 						mode := os.FileMode(0o600 + j%64)
-						if j%5 == 2 {
+						switch {
+						case j%5 == 2:
 							mode |= os.ModeDir
+						case j%11 == 7: // every file kind a lister can report
+							mode |= os.ModeDevice | os.ModeCharDevice
+						case j%11 == 9:
+							mode |= os.ModeNamedPipe
+						case j%11 == 3:
+							mode |= os.ModeSymlink
+						case j%13 == 5:
+							mode |= os.ModeSocket
+						case j%13 == 6:
+							mode |= os.ModeDevice
 						}
 						inf := c16Info{nm, int64(j*31 + 1), mode, 1500000000 + int64(j)}
 						switch j % 3 {
